@@ -140,8 +140,15 @@ class Impl:
                  "coefficient_determination2d", "categorical_crossentropy", "categorical_crossentropy3d",
                  "accuracy_score", "accuracy_score2d", "confusion_matrix", "recall_score", "recall_score2d",
                  "precision_score", "precision_score2d", "f1_score", "f1_score2d"]
-        self.c = {n: MR.compiled(MOD + n) for n in names}
-        self.m = {n: MR.get(MOD + n) for n in names}
+        import importlib
+        mod = importlib.import_module(MOD.rstrip("."))
+        self.c, self.m, self.plain = {}, {}, []
+        for n in names:
+            try:
+                self.c[n], self.m[n] = MR.compiled(MOD + n), MR.get(MOD + n)
+            except KeyError:        # no longer a numba dispatcher (e.g. wrapped by a plain Python function): the public callable is what users get
+                self.c[n] = self.m[n] = getattr(mod, n)
+                self.plain.append(n)
 
 
 _IMPL = None
@@ -513,6 +520,7 @@ def run(ctx, rep):
 
     C.log(f"[C19] regression done, evaluations={rep.evaluations}")
     # ---------------- cross-entropy
+    ce_prev = {}
     for i in range(ctx.pick(500, 5000)):
         T, O, kind = random_crossentropy(rng)
         case = dict(fn="crossentropy", target=T, output=O, kind=kind)
@@ -535,6 +543,25 @@ def run(ctx, rep):
             O3a = np.array(O3, dtype=np.float64)
             b = I.c["categorical_crossentropy3d"](Ta, O3a)
             bcase = dict(fn="crossentropy3d", target=T, output3d=O3)
+            # any sequence of calls: (1) a caller-owned target buffer refilled in place between two calls, (2) a released target
+            # followed by a new one of the same shape (CPython re-uses the address, hence id())
+            prevT = ce_prev.get(Ta.shape)
+            ce_prev[Ta.shape] = Ta.copy()
+            if prevT is not None:
+                buf = prevT.copy()
+                I.c["categorical_crossentropy3d"](buf, O3a)
+                buf[...] = Ta
+                b_buf = I.c["categorical_crossentropy3d"](buf, O3a)
+                t1 = prevT.copy()
+                I.c["categorical_crossentropy3d"](t1, O3a)
+                del t1
+                t2 = Ta.copy()
+                b_new = I.c["categorical_crossentropy3d"](t2, O3a)
+                for label, got in (("a target buffer refilled in place is scored against its earlier contents", b_buf),
+                                   ("a new target array of the same shape is scored against a released earlier target", b_new)):
+                    if not same_bits(got, b):
+                        rep.problem("batch", "3-D batch variant depends on an earlier call: " + label, dict(bcase, earlier_target=prevT.tolist()),
+                                    "batch:stale-target", True, np.asarray(got).tolist(), np.asarray(b).tolist(), "C19_batch_rowwise")
             rep.count("batch-crossentropy", (tuple(map(tuple, T)), str(O3)))
             sc = [float(I.c["categorical_crossentropy"](Ta, O3a[j])) for j in range(len(O3))]
             if not same_bits(sc, b):
@@ -619,6 +646,17 @@ def replay(ctx, rp) -> bool:
         sc = [float(I.c["categorical_crossentropy"](Ta, O3a[j])) for j in range(len(O3))]
         ok = same_bits(sc, b) and not any(crossentropy_violations(T, O3[j], sc[j]) for j in range(len(O3)))
         print("batch", b.tolist(), "scalar", sc)
+        if case.get("earlier_target") is not None:      # the recorded call sequence
+            buf = np.array(case["earlier_target"], dtype=np.float64)
+            I.c["categorical_crossentropy3d"](buf, O3a)
+            buf[...] = Ta
+            b_buf = I.c["categorical_crossentropy3d"](buf, O3a)
+            t1 = np.array(case["earlier_target"], dtype=np.float64)
+            I.c["categorical_crossentropy3d"](t1, O3a)
+            del t1
+            b_new = I.c["categorical_crossentropy3d"](Ta.copy(), O3a)
+            print("after an earlier call: refilled buffer", np.asarray(b_buf).tolist(), "new array", np.asarray(b_new).tolist())
+            ok = ok and same_bits(b_buf, sc) and same_bits(b_new, sc)
     else:
         print("replay: no executable case recorded (obligation / build problem):", rp.get("broken", rp.get("first", {}).get("what", ""))[:3])
         return False
